@@ -59,9 +59,16 @@ def main():
         pids = checks or ["C%02d" % i for i in range(1, 19)]
         for pid in pids:
             t = time.time()
-            rc, out = sh("./check %s --tier quick" % pid, cwd=V)
+            # first pass without the deeper search (fast); the property the seed was written against gets the search as
+            # well when the first pass misses it
+            rc, out = sh("VERIF_NO_SEARCH=1 ./check %s --tier quick --no-evidence" % pid, cwd=V)
+            if not any(l.startswith("VIOLATION") and "no-failing-input-found" not in l for l in out.split("\n")) and pid == sid[:3]:
+                rc, out = sh("./check %s --tier quick --no-evidence" % pid, cwd=V)
+                searched = True
+            else:
+                searched = False
             vio = [l for l in out.split("\n") if l.startswith("VIOLATION")]
-            caught[pid] = {"exit": rc, "violation": vio[0] if vio else None, "wall_s": round(time.time() - t, 1)}
+            caught[pid] = {"exit": rc, "violation": vio[0] if vio else None, "wall_s": round(time.time() - t, 1), "with_search": searched}
             if vio:
                 p = vio[0].split("replay=")[1].split(" ")[0]
                 try:
